@@ -500,3 +500,37 @@ Theorem C13_link_get_rdpe_fixed_equivalent :
      exists d l, mpf_get_2dl_fixed f = Ok (d, l) /\ mpf_get_2dl f = Ok (d, l, f, [0; m_exp f])).
 Proof. exact (conj get_rdpe_fixed_equiv get_2dl_fixed_equiv). Qed.
 Print Assumptions C13_link_get_rdpe_fixed_equivalent.
+
+(* ------------------------------------------------------------------ mpf_get_d (as used by mpc_get_cplx) on its whole range
+   x = D * 2^ex0, ex0 = 64 * (exp - n), top = bitlen D + ex0 (2^(top-1) <= x < 2^top).  Wherever GMP's own exponent computation
+   (EXP - size) * 64 is defined: infinity iff x >= 2^1024; in the normal range the 53-bit truncation (relative error <= 2^-52, never
+   larger); in the subnormal range the truncation to a multiple of 2^-1074; +0 below 2^-1074; the result is an IEEE-canonical double. *)
+Theorem C13_link_get_d_whole_range :
+  forall f, wf_mpf f = true -> m_size f <> 0 -> in_long ((m_exp f - m_n f) * 64) = true ->
+  exists d, mpf_get_d f = Ok d /\ canon_dbl d = true /\
+    let D := m_d f in let ex0 := (m_exp f - m_n f) * 64 in let top := bitlen D + ex0 in
+    if 1025 <=? top then d = DInf (m_neg f)
+    else if -1021 <=? top then
+      exists q k, d = DFin (m_neg f) q (ex0 + k) /\ 2 ^ 52 <= q < 2 ^ 53 /\ -1074 <= ex0 + k <= 971 /\
+        (0 <= k -> q * 2 ^ k <= D /\ 2 ^ 52 * (D - q * 2 ^ k) <= D) /\ (k < 0 -> q = D * 2 ^ (- k))
+    else if top <=? -1074 then d = DZero
+    else
+      exists m, d = DFin (m_neg f) m (-1074) /\ 0 < m < 2 ^ 52 /\
+        let sh := -1074 - ex0 in
+        (0 <= sh -> m * 2 ^ sh <= D < (m + 1) * 2 ^ sh) /\ (sh < 0 -> m = D * 2 ^ (- sh)).
+Proof.
+  intros f W N L. destruct (get_d_whole_range f W N L) as (d & E & S & C).
+  exists d. split; [exact E|]. split; [exact C|]. exact S.
+Qed.
+Print Assumptions C13_link_get_d_whole_range.
+
+Example C13_link_get_d_concrete :      (* 2^-1088 underflows to +0; (2^128 - 2^64 + 1) * 2^(64 * 15) overflows to +infinity *)
+  mpf_get_d (mkmpf 2 1 (-16) 1) = Ok DZero /\
+  mpf_get_d (mkmpf 2 2 17 (2 ^ 128 - 2 ^ 64 + 1)) = Ok (DInf false) /\
+  mpf_get_d (mkmpf 2 (-1) 1 3) = Ok (DFin true (3 * 2 ^ 51) (-51)).
+Proof. repeat split; vm_compute; reflexivity. Qed.
+
+Example C13_link_set_rdpe_concrete :    (* 0.75 * 2^65 = 3 * 2^127 in three limbs; and the repaired negation at LONG_MIN: 0.5 * 2^LONG_MIN *)
+  mpf_set_rdpe 3 (DFin false (3 * 2 ^ 51) (-53), 65) = Ok (mkmpf 3 3 2 (3 * 2 ^ 127)) /\
+  mpf_set_2dl_fixed 2 (DFin false (2 ^ 52) (-53)) LMIN = Ok (mkmpf 2 2 (- 2 ^ 57) (2 ^ 127)).
+Proof. split; vm_compute; reflexivity. Qed.
